@@ -256,9 +256,10 @@ class Block:
 
 class Fact:
     """a branch outcome that holds on every path to some program point"""
-    __slots__ = ("cond", "pol", "belief", "rejects_by_throw", "block")
+    __slots__ = ("cond", "pol", "belief", "rejects_by_throw", "block", "edges")
 
-    def __init__(self, cond, pol, belief, rejects_by_throw, block):
+    def __init__(self, cond, pol, belief, rejects_by_throw, block, edges=()):
+        self.edges = tuple(edges)
         self.cond = cond          # Node
         self.pol = pol            # truth value of cond on the surviving edge
         self.belief = belief      # compiled out in the shipped build (assert)
@@ -517,16 +518,96 @@ class Function:
             rej = other is not None and not self.normal_exit_reachable_from(other)
             tn = nodes.get(b.term) if b.term is not None else None
             belief = (tn is not None and tn.is_belief()) or cn.is_belief()
-            facts.append(Fact(cn, pol, belief, rej, b.id))
+            fact = Fact(cn, pol, belief, rej, b.id, [(b.id, si)])
+            if not self._killed(fact, bid, None, tb):
+                facts.append(fact)
         for (edges, cn, pol, others, stmt) in self.compound_groups():
             r = self.reachable(self.entry, removed_edges=edges, removed_blocks=tb)
             if bid in r:
                 continue
             rej = all(o is not None and not self.normal_exit_reachable_from(o) for o in others)
             belief = stmt.is_belief() or cn.is_belief()
-            facts.append(Fact(cn, pol, belief, rej, edges[0][0]))
+            fact = Fact(cn, pol, belief, rej, edges[0][0], edges)
+            if not self._killed(fact, bid, None, tb):
+                facts.append(fact)
         self._facts_cache[key] = facts
         return facts
+
+    # --- a fact is only worth something while the things it talks about are unchanged -------------------
+    def _writes(self):
+        """[(block, index, key)] key = ('id', decl id) | ('field', name): assignments, ++/--, and non-const member calls on
+        a local / member object (v.resize(n) changes v.size())"""
+        if getattr(self, "_write_list", None) is not None:
+            return self._write_list
+        out = []
+        accessors = {"operator[]", "operator()", "data", "begin", "end", "at", "front", "back", "operator*", "operator->", "get",
+                     "slice", "cbegin", "cend", "rbegin", "rend"}
+
+        def key_of(t):
+            t = t.strip_all()
+            if t.k == "DeclRefExpr" and t.decl and t.decl.get("k") in ("local", "parm", "binding"):
+                return ("id", t.decl["id"])
+            if t.k == "MemberExpr" and t.decl and t.decl.get("k") == "field" and (not t.c or t.c[0].strip_all().k == "CXXThisExpr"):
+                return ("field", t.decl["n"])
+            return None
+        for n in self.walk():
+            tgt = None
+            if n.k in ("BinaryOperator", "CompoundAssignOperator") and n.op and n.op.endswith("=") and n.op not in ("==", "!=", "<=", ">=") and n.c:
+                tgt = n.c[0]
+            elif n.k == "UnaryOperator" and n.op in ("++", "--") and n.c:
+                tgt = n.c[0]
+            elif n.k == "CXXOperatorCallExpr" and n.op and (n.op.endswith("=") and n.op not in ("==", "!=", "<=", ">=") or n.op in ("++", "--")) and len(n.c) > 1:
+                tgt = n.c[1]
+            elif n.k == "CXXMemberCallExpr" and n.callee and not n.callee.get("const") and not n.callee.get("static"):
+                nm = (n.callee.get("qn") or "").rsplit("::", 1)[-1]
+                if nm not in accessors:
+                    tgt = n.call_object()
+            if tgt is None:
+                continue
+            k = key_of(tgt)
+            if k is None:
+                continue
+            loc = self.block_of(n)
+            if loc is not None:
+                out.append((loc[0], loc[1], k))
+        self._write_list = out
+        return out
+
+    def _terms(self, cond):
+        ts = set()
+        for x in cond.walk():
+            if x.k == "DeclRefExpr" and x.decl and x.decl.get("k") in ("local", "parm", "binding"):
+                ts.add(("id", x.decl["id"]))
+            elif x.k == "MemberExpr" and x.decl and x.decl.get("k") == "field" and (not x.c or x.c[0].strip_all().k == "CXXThisExpr"):
+                ts.add(("field", x.decl["n"]))
+        return ts
+
+    def _killed(self, fact, bid, idx, removed_blocks=()):
+        """is some variable / member the condition mentions written at a point from which the target can be reached without
+        re-crossing the fact's edge(s)?  (a write before the test, or a loop increment followed by a re-test, does not kill)"""
+        terms = self._terms(fact.cond)
+        if not terms:
+            return False
+        ws = [w for w in self._writes() if w[2] in terms]
+        if not ws:
+            return False
+        for (wb, wi, k) in ws:
+            if wb == bid:
+                if idx is None:
+                    # target is the block as a whole: only facts_at(node) refines within a block
+                    reach_from_succ = False
+                else:
+                    if wi < idx:
+                        return True
+                    reach_from_succ = False
+            r = set()
+            for si, s_ in enumerate(self.blocks[wb].succs):
+                if s_ is None or (wb, si) in fact.edges:
+                    continue
+                r |= self.reachable(s_, removed_edges=fact.edges, removed_blocks=removed_blocks)
+            if bid in r:
+                return True
+        return False
 
     def facts_at(self, node):
         """facts that hold whenever `node` is evaluated.  Conditions are block terminators, so the facts of the
@@ -534,7 +615,20 @@ class Function:
         loc = self.block_of(node)
         if loc is None:
             return []
-        return self.facts_at_block(loc[0])
+        facts = self.facts_at_block(loc[0])
+        # writes earlier in the node's own block, after the block was entered, also invalidate
+        out = []
+        for fact in facts:
+            terms = self._terms(fact.cond)
+            dead = False
+            if terms:
+                for (wb, wi, k) in self._writes():
+                    if wb == loc[0] and wi < loc[1] and k in terms:
+                        dead = True
+                        break
+            if not dead:
+                out.append(fact)
+        return out
 
     def precedes(self, a, b):
         """True if CFG element of node a is evaluated on every path before node b (block dominance + order)"""
